@@ -148,7 +148,9 @@ pub fn check(r: &ExecResult, prog: &Program) -> Vec<Finding> {
 pub fn scenarios(tier: Tier) -> Vec<Scenario> {
     let mut v = vec![];
     let mut add = |name: &str, reducers: u32, acts: Vec<Act>, client: Vec<Op>, removes: bool, gated: bool, bound: u32| {
-        let mut spec = StoreSpec::new(reducers, 4, Pol::Block);
+        // "tight": the queue is full while the effect's own dispatch is pending
+        let cap = if name.starts_with("tight") { 1 } else { 4 };
+        let mut spec = StoreSpec::new(reducers, cap, Pol::Block);
         if removes {
             spec.mws = 1;
             spec.mw_removes_effect = Some(0);
@@ -171,6 +173,8 @@ pub fn scenarios(tier: Tier) -> Vec<Scenario> {
     for &k in &kinds {
         add(&format!("kind{}x1", k), 1, vec![Act::new(100).eff(0, k), Act::new(101)], vec![], false, false, b);
     }
+    add("tight-action", 1, vec![Act::new(100).eff(0, EFF_ACTION), Act::new(101), Act::new(102)], vec![], false, false, 2);
+    add("tight-thunk", 1, vec![Act::new(100).eff(0, EFF_THUNK_DISPATCH), Act::new(101), Act::new(102)], vec![], false, false, 2);
     add("two-effects", 2, vec![Act::new(100).eff(0, EFF_TASK).eff(1, EFF_THUNK), Act::new(101).eff(1, EFF_FUNCTION)], vec![], false, false, 2);
     add("removed", 2, vec![Act::new(100).eff(0, EFF_TASK).eff(1, EFF_THUNK), Act::new(101).eff(0, EFF_TASK)], vec![], true, false, 2);
     add("panic", 1, vec![Act::new(100).eff(0, EFF_PANIC_TASK), Act::new(101).eff(0, EFF_TASK)], vec![], false, false, 2);
